@@ -571,3 +571,87 @@ func mutateValue(t *rapid.T, v interface{}) (interface{}, string) {
 	set("changed")
 	return c, "replace"
 }
+
+// editString returns a string different from s, produced by one small edit (the kinds of change a re-encoding, a copy/paste
+// slip or a deliberate respelling produce). Used where exactly one string is right and every other one must be refused.
+func editString(t *rapid.T, s string) (string, string) {
+	const alpha = "ABCDEFGHIJKLMNOPQRSTUVWXYZabcdefghijklmnopqrstuvwxyz0123456789-_"
+	r := []rune(s)
+	pos := func(n int) int {
+		if n <= 0 {
+			return 0
+		}
+		switch rapid.IntRange(0, 2).Draw(t, "editWhere") {
+		case 0:
+			return 0
+		case 1:
+			return n - 1
+		}
+		return rapid.IntRange(0, n-1).Draw(t, "editPos")
+	}
+	for try := 0; try < 8; try++ {
+		kind := rapid.SampledFrom([]string{"tail-respelled", "delete", "insert", "replace", "case", "truncate", "append", "swap", "std-alphabet", "padding", "space", "doubled"}).Draw(t, "editKind")
+		out := s
+		switch kind {
+		case "tail-respelled": // other base64url spelling of the same bytes (spare bits of the last character)
+			if len(s)%4 != 0 && len(s) > 0 {
+				if i := strings.IndexByte(alpha, s[len(s)-1]); i >= 0 {
+					spare := 2
+					if len(s)%4 == 2 {
+						spare = 4
+					}
+					out = s[:len(s)-1] + string(alpha[i^rapid.IntRange(1, 1<<spare-1).Draw(t, "spareBits")])
+				}
+			}
+		case "delete":
+			if len(r) > 0 {
+				i := pos(len(r))
+				out = string(r[:i]) + string(r[i+1:])
+			}
+		case "insert":
+			i := pos(len(r) + 1)
+			out = string(r[:i]) + string(alpha[rapid.IntRange(0, 63).Draw(t, "editChar")]) + string(r[i:])
+		case "replace":
+			if len(r) > 0 {
+				i := pos(len(r))
+				out = string(r[:i]) + string(alpha[rapid.IntRange(0, 63).Draw(t, "editChar")]) + string(r[i+1:])
+			}
+		case "case":
+			if len(r) > 0 {
+				i := pos(len(r))
+				c := string(r[i])
+				if strings.ToUpper(c) != c {
+					c = strings.ToUpper(c)
+				} else {
+					c = strings.ToLower(c)
+				}
+				out = string(r[:i]) + c + string(r[i+1:])
+			}
+		case "truncate":
+			if len(r) > 0 {
+				out = string(r[:rapid.IntRange(0, len(r)-1).Draw(t, "editLen")])
+			}
+		case "append":
+			out = s + rapid.SampledFrom([]string{"A", "AA", "AAAA", "=", "\n", ".", s}).Draw(t, "editTail")
+		case "swap":
+			if len(r) > 1 {
+				i := pos(len(r) - 1)
+				r2 := append([]rune{}, r...)
+				r2[i], r2[i+1] = r2[i+1], r2[i]
+				out = string(r2)
+			}
+		case "std-alphabet":
+			out = strings.NewReplacer("-", "+", "_", "/").Replace(s)
+		case "padding":
+			out = s + strings.Repeat("=", (4-len(s)%4)%4)
+		case "space":
+			out = rapid.SampledFrom([]string{" " + s, s + " ", s + "\n", "\t" + s}).Draw(t, "editSpace")
+		case "doubled":
+			out = s + s
+		}
+		if out != s {
+			return out, kind
+		}
+	}
+	return s + "A", "append"
+}
